@@ -140,6 +140,8 @@ def _final_ok(before, after, clean_after, what_prefix):
                 fails.append("%s: %s completely rewritten but does not parse" % (what_prefix, f))
             continue
         if f.endswith(".doctrans-tmp"):
+            if a is None:
+                continue     # a temporary file left by an earlier, killed run was cleaned up: no damage
             fails.append("%s: temporary file %s left behind" % (what_prefix, f))
         else:
             fails.append("%s: %s is neither its old content nor the complete new content (%d bytes, old %s, new %s)" % (
@@ -341,6 +343,132 @@ def gen_fault_points():
     return fails, evals
 
 
+# ------------------------------------------------------------------ (i') the `gen` rows of the command-line table
+GEN_IMPORTS_ROWS = [{"how": "none"}, {"how": "module"}, {"how": "file"}, {"how": "other"},
+                    {"how": "symbol", "form": "obj"}, {"how": "symbol", "form": "member"},
+                    {"how": "symbol", "form": "reexported"}, {"how": "symbol", "form": "from-mod"},
+                    {"how": "symbol", "form": "bare"}]
+GEN_PREPEND_COLS = ["none", "final-newline", "no-final-newline", "docstring-first", "imports-input-module"]
+
+
+def gen_cli_cases(rng, n_random):
+    """argument combinations of `gen`: the full grid --imports-from-file shape (absent, module name, file path, another
+    file, symbol path of depth 1..4) x --prepend shape (absent, text with / without final newline, docstring first,
+    importing the input module) with type, name template, input module and its layout (flat / package / nested package)
+    drawn per cell, then n_random freely drawn ones; about one in eight onto an existing output file"""
+    import fam_gen
+    cases = []
+
+    def one(imports, col):
+        kw = dict(domain="wellformed", mostly_good=True, mapping_ref="ok", plain_keys=True,
+                  type_=rng.choice(["class", "argparse", "function"]),
+                  name_tpl=rng.choice(fam_gen.TEMPLATES_GOOD[:2] * 3 + fam_gen.TEMPLATES_GOOD),
+                  existing=None if rng.random() < 0.88 else rng.choice(["KEEP = 1\n", "# old file", ""]))
+        if imports is not None:
+            if imports["how"] == "other":
+                lines = rng.sample(fam_gen.IMPORT_LINES, rng.choice([1, 1, 2, 3]))
+                imports = {"how": "other", "src": "\n".join(lines) + "\n"}
+            kw["imports"] = dict(imports)
+            sym = imports["how"] == "symbol"
+            if col == "none":
+                kw.update({"prepend_shape": "plain"} if sym else {"prepend": None})
+            elif col == "final-newline":
+                if sym:
+                    kw["prepend_shape"] = rng.choice(["plain", "import-before", "import-after", "stmt-after", "blank-lines"])
+                else:
+                    kw["prepend"] = rng.choice(fam_gen.PREPENDS_GOOD)
+            elif col == "no-final-newline":
+                if sym:
+                    kw["prepend_shape"] = rng.choice(["no-nl", "stmt-after-no-nl"])
+                else:
+                    kw["prepend"] = rng.choice(fam_gen.PREPENDS_NO_NL + ["import sys", "import os\nX = 1", "from os import sep"])
+            elif col == "docstring-first":
+                if sym:
+                    kw["prepend_shape"] = rng.choice(["doc", "doc-stmt"])
+                else:
+                    kw["prepend"] = rng.choice(['"""Generated"""\nimport sys', '"""Generated."""\nimport sys\n', '"""Doc"""\n',
+                                                '"""Doc"""\nX = 1\nimport json'])
+            elif col == "imports-input-module":
+                kw["prepend_shape"] = rng.choice(["plain", "no-nl", "doc", "stmt-after-no-nl", "import-before"])
+            # (a symbol path needs the prepended import that makes it resolvable: column "none" gets the plain one)
+        c = fam_gen.gen_case(rng, **kw)
+        c["opts"] = {"emit_call": False, "emit_default_doc": True, "decorator_list": None}
+        c["route"] = "cli"
+        return c
+    for imports in GEN_IMPORTS_ROWS:
+        for col in GEN_PREPEND_COLS:
+            cases.append(one(imports, col))
+    for _ in range(n_random):
+        cases.append(one(None, None))
+    return cases
+
+
+def _gen_cli_run(case):
+    """the real command line in a child process; (rc, last stderr line, tree before, tree after, output path rel.)"""
+    import fam_gen
+    import prop_C19
+    from common import REPO
+    ws = fam_gen.materialise(case)
+    try:
+        before = L.snapshot(ws["tmp"])
+        r = L.run_cli(prop_C19._cli_cmd(case, ws)[3:], cwd=ws["tmp"],
+                      extra_env={"PYTHONPATH": REPO + os.pathsep + ws["tmp"], "PYTHONDONTWRITEBYTECODE": "1"})
+        after = L.snapshot(ws["tmp"])
+    finally:
+        shutil.rmtree(ws["tmp"], ignore_errors=True)
+    last = [l for l in r["stderr"].strip().split("\n") if l][-1:] or [""]
+    return r["rc"], last[0][:200], before, after, os.path.relpath(ws["out_path"], ws["tmp"])
+
+
+def _gen_cli_judge(case, run, in_guard):
+    """C20 on one `gen` invocation: rejected (existing output) => non-zero exit, tree untouched; accepted => no file but
+    the output is touched, the output is absent or complete and parseable, and - inside the region where the C19 theorems
+    say gen succeeds - it ends without an internal error and the output is there"""
+    rc, last, before, after, out = run
+    if case["existing"] is not None:
+        if rc == 0 or before != after:
+            return "gen onto an existing output: rc=%s, fs %s" % (rc, "untouched" if before == after else "TOUCHED")
+        return None
+    for f in sorted(set(before) | set(after)):
+        if f != out and before.get(f) != after.get(f):
+            return "gen touched %s (rc=%s)" % (f, rc)
+    if out in after:
+        try:
+            ast.parse(after[out].decode())
+        except (SyntaxError, UnicodeDecodeError):
+            return "gen left an output file that does not parse (rc=%s)" % rc
+    if in_guard and rc != 0:
+        return "accepted invocation ended with an internal error: %s" % last
+    if in_guard and out not in after:
+        return "accepted invocation exited 0 without writing the output file"
+    return None
+
+
+def gen_cli_points(rng, n_random):
+    import prop_C19
+    cases = gen_cli_cases(rng, n_random)
+    with concurrent.futures.ThreadPoolExecutor(max_workers=8) as ex:
+        runs = list(ex.map(_gen_cli_run, cases))
+    classes, model_runs = prop_C19._classify(cases)
+    fails, hist, seen = [], collections.Counter(), set()
+    for c, run, cl, mr in zip(cases, runs, classes, model_runs):
+        cls, guard = prop_C19._decode_class(cl)
+        cell = "imports-%s%s:prepend-%s" % (c["imports"]["how"], "-" + c["imports"]["form"] if "form" in c["imports"] else "",
+                                            "none" if c["prepend"] is None else "final-newline" if c["prepend"].endswith("\n")
+                                            else "no-final-newline")
+        region = "existing-output" if c["existing"] is not None else "outside-C19-domain" if cls == "out-of-domain" \
+            else "unmodelled" if mr == "(err Unmodelled)" else "in-guard_C19" if guard else "C19-class:%s" % cls
+        in_guard = region == "in-guard_C19"
+        what = _gen_cli_judge(c, run, in_guard)
+        hist["gen-cli:%s:%s" % (region, "ok" if what is None else "FAILS")] += 1
+        hist["gen-cli:cell:" + cell] += 1
+        if what is not None:
+            fails.append({"case": {"gen_cli": {k: v for k, v in c.items() if k != "tags"}}, "what": what, "class": None})
+        elif in_guard or c["existing"] is not None:
+            seen.add(dumps([cell, c["type_"], sorted((c.get("layout") or {}).items()), c["existing"] is not None]))
+    return fails, len(cases), hist, len(seen)
+
+
 # ------------------------------------------------------------------ oracle
 def oracle(rng, tier):
     failures, hist = [], collections.Counter()
@@ -380,10 +508,18 @@ def oracle(rng, tier):
     failures += f3
     f4, e4 = gen_fault_points()
     failures += f4
-    return {"evaluations": len(shapes) + 4 + e2 + e3 + e4, "distinct_nontrivial": len(seen) + e2,
+    # (i') the gen rows of the command-line table (drawn last: the draws above do not depend on them)
+    f5, e5, h5, s5 = gen_cli_points(rng, 10 if tier == "quick" else 300)
+    failures += f5
+    hist.update(h5)
+    e4, gen_seen = e4 + e5, s5
+    return {"evaluations": len(shapes) + 4 + e2 + e3 + e4, "distinct_nontrivial": len(seen) + e2 + gen_seen,
             "rule": "CLI: argument shapes of `sync` (each of six options absent/once/twice x truth x truth-file-exists; "
                     + ("all 4374 enumerated" if exhaustive else "sampled in quick tier, exhaustive in thorough") +
-                    ") run through the real command line, plus sync_properties/gen rejections; faults: every write point "
+                    ") run through the real command line, plus sync_properties/gen rejections, plus `gen` over the grid "
+                    "--imports-from-file shape (absent, module, file path, other file, symbol path of depth 1..4) x --prepend "
+                    "shape (absent, with/without final newline, docstring first, importing the input module) x type x input "
+                    "module layout (judged for 'no internal error' inside guard_C19, for 'no damage' everywhere); faults: every write point "
                     "(open tmp, k characters written, replace, read old) and a conversion error at every target of generated sync projects, "
                     "sync_properties' single write, gen's write; non-trivial = distinct shape / fault point actually reached",
             "failures": failures, "histogram": dict(hist), "exhaustive": exhaustive,
@@ -394,6 +530,13 @@ def check_case(case):
     if "cli_shape" in case:
         ok, what, _ = cli_point(case["cli_shape"])
         return ok, what
+    if "gen_cli" in case:
+        import prop_C19
+        c = case["gen_cli"]
+        cl, mr = prop_C19._classify([c])
+        _, guard = prop_C19._decode_class(cl[0])
+        what = _gen_cli_judge(c, _gen_cli_run(c), guard and c["existing"] is None and mr[0] != "(err Unmodelled)")
+        return what is None, what or ""
     if case.get("command") == "gen":
         f, _ = gen_fault_points()
         return (not f), "; ".join(x["what"] for x in f)
